@@ -44,9 +44,13 @@ def gen_cfg(rnd, opts=None):
             nsvc = rnd.randint(5, 13)       # service indices beyond one byte of the per-client masks
         nsvc = max(nsvc, opts.get("min_svc", 0))
         names = rnd.sample(SVC_POOL, nsvc)
+        if "nsvc" not in opts and rnd.random() < 0.012:
+            # more entries than the 32 services the module's per-client masks can tell apart
+            names = rnd.sample(["W%02d.example.org" % k if k % 7 == 0 else "w%02d.example.org" % k for k in range(60)], rnd.randint(31, 36))
+            cfg["wide_table"] = True
         for n in names:
             cfg["services"][n] = rnd.choice(SVC_TYPES)
-        if rnd.random() < 0.15:
+        if rnd.random() < 0.15 and not cfg.get("wide_table"):
             cfg["services"]["proxy.example.org"] = rnd.choice(["proxycheck", "LOGINX", "none"])
     if modules == "class":
         cfg["rules"] = gen_rules(rnd, sorted(cfg["services"]))
@@ -272,6 +276,8 @@ class Gen:
         self.faults = set(f for f in FAULT_KINDS if rnd.random() < 0.5) if not o.get("no_faults") else set()
         if "faults" in o:
             self.faults = set(o["faults"])
+        if cfg.get("wide_table"):
+            self.faults.discard("cfg_tables")       # (which entries get a table slot is only modelled for a fresh start)
         if "extreme_ids" in self.faults:
             ids[:2] = rnd.sample([2147483647, -2147483648, 0, -2, 2147483646], 2)
         self.ids = ids
